@@ -137,13 +137,12 @@ def main():
 
     def read_and_compare(proxy, base, idx, info):
         want = base[tuple(keep(x) for x in idx)]
-        if want.size == 0:
-            return
+        stats_ix["empty_selections"] = stats_ix.get("empty_selections", 0) + (want.size == 0)
         try:
             got = np.asarray(proxy.data[idx if len(idx) != 1 else idx[0]])
         except Exception as e:  # noqa
             if len(direct) < 10:
-                direct.append(dict(info, law="a non-empty in-domain index can be read over DAP4", index=repr(idx), error=repr(e)[:300]))
+                direct.append(dict(info, law="an in-domain index can be read over DAP4", index=repr(idx), error=repr(e)[:300]))
             return
         if got.shape != want.shape or got.dtype.newbyteorder("=") != want.dtype.newbyteorder("=") or canon(got) != canon(want):
             if len(direct) < 10:
